@@ -130,8 +130,8 @@ fn check_pattern(t: &mut Tally, pat: &str, names: &[String]) {
 }
 
 const BASES: [&str; 8] = ["", "p", "pk", "p-q", "p-q-r", "é", "e\u{301}", "p*"];
-const BOUNDS: [&str; 7] = ["", "1", "2", "1.5", "2nb1", "1.0", "2alpha"];
-const VERSIONS: [&str; 9] = ["", "0", "1", "1.5", "2", "2nb1", "3", "1.0.0", "2beta"];
+const BOUNDS: [&str; 8] = ["", "1", "2", "1.5", "2nb1", "1.0", "2alpha", "0"];
+const VERSIONS: [&str; 12] = ["", "0", "1", "1.5", "2", "2nb1", "3", "1.0.0", "2beta", "alpha", "0rc1", "0.0beta2"];
 
 fn structured_names() -> Vec<String> {
     let mut bases: BTreeSet<String> = BTreeSet::new();
